@@ -238,6 +238,113 @@ def run_cfg(ctx, cfg, label, limit):
         ctx.sample({"source": todo[len(todo) // 2][1], "parts": str(todo[len(todo) // 2][3])[:300]})
 
 
+# ---------------------------------------------------------------------------------------------- the scanner mirror
+def mirror_parts(parts):
+    out = []
+    for p in parts:
+        if p["k"] == "text":
+            out.append(("text", p["v"]))
+        else:
+            out.append(("field", p["expr"], CONV[p["conv"]], mirror_parts(p["spec"]) if p["has"] else None))
+    return out
+
+
+def cpy_ok(text):
+    try:
+        with warnings.catch_warnings():
+            warnings.simplefilter("ignore")
+            pyast.parse(text, mode="eval")
+        return True
+    except (SyntaxError, ValueError):
+        return False
+
+
+def plain_compare(spec, got, alone):
+    """mirror parts (expression texts) against the parser's parts (expression trees), ranges erased"""
+    if got is None or len(spec) != len(got):
+        return "count"
+    for s, g in zip(spec, got):
+        if s[0] != g[0]:
+            return "kind"
+        if s[0] == "text":
+            if s[1] != g[1]:
+                return "text"
+            continue
+        base = alone.get(s[1])
+        if base is None or strip_ranges(base) != strip_ranges(g[1]):
+            return "expr"
+        if s[2] != g[2]:
+            return "conversion"
+        if (s[3] is None) != (g[3] is None):
+            return "spec_presence"
+        if s[3] is not None:
+            r = plain_compare(s[3], g[3], alone)
+            if r:
+                return "spec." + r
+    return None
+
+
+def run_scan(ctx):
+    """FStringScan.tla: the scanner's mirror on every body over its alphabet"""
+    r = ctx.tlc("literal", "FStringScan", "FStringScan_%s.cfg" % ("quick" if ctx.quick else "thorough"), coverage=False, timeout=3000)
+    cases = r.replays
+    from vcheck import ToolError
+    if len(cases) < 10000:
+        raise ToolError("vacuity: FStringScan emitted %d bodies" % len(cases))
+    h = ctx.harness("default")
+    exprs = set()
+    for c in cases:
+        if not c["err"]:
+            exprs.update(spec_exprs(mirror_parts(c["parts"])))
+    exprs = sorted(exprs)
+    alone = {}
+    for t, resp in zip(exprs, h.run([{"op": "parse", "src": "(" + t + ")", "mode": "Expression"} for t in exprs])):
+        if "ok" in resp:
+            alone[t] = resp["ok"]["body"]
+    reqs = [{"op": "parse", "src": 'f"%s"' % c["body"], "mode": "Expression"} for c in cases]
+    kinds = ctx.extra.setdefault("scan_outcomes", {})
+    # the implementation parses a field's expression as soon as the field is closed: a malformed expression in a
+    # completed field is reported before any later scanning error.  Every prefix of a body is a body of the table.
+    bad_prefix = {}
+    for c in cases:
+        if not c["err"] and any(t not in alone for t in spec_exprs(mirror_parts(c["parts"]))):
+            bad_prefix[c["body"]] = True
+    for c, req, resp in zip(cases, reqs, h.run(reqs)):
+        ctx.replayed += 1
+        src = req["src"]
+        base = {"fam": "scan", "src": src, "err": c["err"], "parts": c["parts"]}
+        parts = mirror_parts(c["parts"])
+        bad_expr = [t for t in spec_exprs(parts) if t not in alone] if not c["err"] else []
+        want = c["err"] or ("InvalidExpression" if bad_expr else "ok")
+        if c["err"] and any(c["body"][:n] in bad_prefix for n in range(1, len(c["body"]))):
+            want = "InvalidExpression"
+        kinds[want] = kinds.get(want, 0) + 1
+        if "ok" in resp:
+            got = "ok"
+        elif "err" in resp:
+            k = resp["err"]["kind"]
+            try:
+                f = k["_a"][0]["_a"][0]
+                got = f if isinstance(f, str) else f.get("_k")
+            except (KeyError, IndexError, TypeError, AttributeError):
+                got = "other:" + json.dumps(k)[:60]
+        else:
+            got = "crash"
+        if got != want:
+            ctx.mismatch("scan.outcome:%s->%s" % (want, got), {"src": src, "mirror": want, "observed": str(resp)[:200]}, base)
+        elif want == "ok":
+            d = plain_compare(parts, rust_parts(resp["ok"]["body"]), alone)
+            if d:
+                ctx.mismatch("scan.parts:%s" % d, {"src": src, "mirror": str(parts)[:200]}, base)
+        # the reference: accepts exactly when the scan succeeds and every field expression is an expression
+        ref_ok = cpy_ok(src)
+        if ref_ok != (want == "ok"):
+            first = next(iter(spec_exprs(parts)), "") if want == "ok" else ""
+            ctx.mismatch("scan.reference:%s_but_reference_%s" % (want, "accepts" if ref_ok else "rejects"), {"src": src, "mirror": want}, base)
+    ctx.extra.setdefault("cases", {})["scanner_mirror"] = len(cases)
+    ctx.distinct_cases.update(r["src"] for r in reqs)
+
+
 def run(ctx):
     ctx.extra["exhaustive"] = True
     ctx.extra["rule"] = "every f-string body of FString.tla's configurations (all items <= 2; core items <= 3/4) x literal forms x concatenation neighbours"
@@ -247,12 +354,38 @@ def run(ctx):
     big = 10 ** 9
     run_cfg(ctx, "FString_quick.cfg", "all_items", 60000 if ctx.quick else big)
     run_cfg(ctx, "FString_deepq.cfg" if ctx.quick else "FString_deep.cfg", "core_items_deep", 40000 if ctx.quick else big)
+    run_scan(ctx)
+
+
+def replay_scan(ctx, c, h):
+    parts = mirror_parts(c["parts"])
+    texts = sorted(set(spec_exprs(parts)))
+    alone = {}
+    for t, resp in zip(texts, h.run([{"op": "parse", "src": "(" + t + ")", "mode": "Expression"} for t in texts])):
+        if "ok" in resp:
+            alone[t] = resp["ok"]["body"]
+    resp = h.run([{"op": "parse", "src": c["src"], "mode": "Expression"}])[0]
+    ctx.replayed += 1
+    bad = [t for t in texts if t not in alone] if not c["err"] else []
+    want = c["err"] or ("InvalidExpression" if bad else "ok")
+    got = "ok" if "ok" in resp else "error"
+    if (want == "ok") != (got == "ok"):
+        ctx.mismatch("scan.outcome:%s->%s" % (want, got), {"observed": str(resp)[:200]}, c)
+    elif want == "ok":
+        d = plain_compare(parts, rust_parts(resp["ok"]["body"]), alone)
+        if d:
+            ctx.mismatch("scan.parts:%s" % d, {}, c)
+    if cpy_ok(c["src"]) != (want == "ok"):
+        ctx.mismatch("scan.reference:%s_but_reference_%s" % (want, "accepts" if cpy_ok(c["src"]) else "rejects"), {}, c)
+    ctx.sample({"fam": "scan"})
 
 
 def replay(ctx, rec):
     c = rec["case"]
     ctx.states = ctx.transitions = 1
     h = ctx.harness("default")
+    if c["fam"] == "scan":
+        return replay_scan(ctx, c, h)
     case = c["case"]
     src, exprs = build(case)
     sp = spec_parts(case["parts"])
